@@ -83,6 +83,17 @@ def gnutls_q(name, defines, unwind=140, budget=600, tiers=('quick', 'thorough'),
                          'signature length': '0..134 bytes', 'key bits': 'any size_t satisfying the C09 floor'})
 
 
+OSSL_UNITS = ['libjwt/openssl/sign-verify.c', 'libjwt/jwt-memory.c']
+OSSL_MODELS = ['alloc', 'jansson_model', 'env', 'openssl_stubs']
+
+
+def ossl_q(name, defines, unwind=140, budget=600, tiers=('quick', 'thorough'), checks='memsafe-noconv'):
+    return Query(name, 'prov_ossl.c', OSSL_UNITS, models=OSSL_MODELS, defines=['VF_EXACT_END', 'VF_CAP=144'] + list(defines),
+                 unwind=unwind, checks=checks, budget=budget, tiers=tiers,
+                 bounds={'algorithms': 'all 11 asymmetric (3 HMAC on the sign side)', 'EVP_PKEY type': 'any int',
+                         'signature length': '0..134 bytes', 'key bits': 'any size_t satisfying the C09 floor'})
+
+
 CORE_FUNCS = ['jwt_checker_new', 'jwt_checker_setkey', 'jwt_checker_setcb', 'jwt_checker_verify', '__setkey_check',
               'jwt_new', 'jwt_free', 'jwt_parse', 'jwt_parse_head', 'jwt_parse_payload',
               'jwt_base64uri_decode_to_json', 'jwt_verify_complete', '__verify_config_post', '__verify_claims',
@@ -117,6 +128,9 @@ class C01(Spec):
             qs.append(core_q('C01.core.L12', ['PROP_C01'], L=12))
             qs.append(core_q('C01.core.L16', ['PROP_C01'], L=16, budget=1800))
         qs.append(gnutls_q('C01.gnutls.verify', ['SIDE_VERIFY']))
+        qs.append(ossl_q('C01.ossl.verify.rsa_pss_eddsa', ['SIDE_VERIFY', 'NOT_ES']))
+        for a in (('ES256', 'ES512') if tier == 'quick' else ('ES256', 'ES256K', 'ES384', 'ES512')):
+            qs.append(ossl_q('C01.ossl.verify.%s' % a, ['SIDE_VERIFY', 'ONLY_ALG=JWT_ALG_%s' % a], budget=900))
         return qs
 
 
@@ -129,7 +143,10 @@ class C02(Spec):
     functions = CORE_FUNCS
     def queries(self, tier, bld):
         return [core_q('C02.core.L12', ['PROP_C02', 'PROP_C02_SETKEY'], L=12),
-                builder_q('C02.builder', ['PROP_C02'])]
+                builder_q('C02.builder', ['PROP_C02']),
+                ossl_q('C02.ossl.verify.family', ['SIDE_VERIFY', 'NOT_ES']),
+                ossl_q('C02.ossl.verify.family.ES256', ['SIDE_VERIFY', 'ONLY_ALG=JWT_ALG_ES256'], budget=900),
+                ossl_q('C02.ossl.sign.family', ['SIDE_SIGN'])]
 
 
 class C03(Spec):
@@ -240,6 +257,8 @@ class C12(Spec):
         m = ['alloc', 'jansson_model', 'env']
         b = {'name/env length': '<= 9 bytes, all byte values', 'id': 'all int'}
         return [gnutls_q('C12.gnutls.verify', ['SIDE_VERIFY']), gnutls_q('C12.gnutls.sign', ['SIDE_SIGN']),
+                ossl_q('C12.ossl.verify', ['SIDE_VERIFY', 'NOT_ES']), ossl_q('C12.ossl.verify.ES256', ['SIDE_VERIFY', 'ONLY_ALG=JWT_ALG_ES256'], budget=900),
+                ossl_q('C12.ossl.sign', ['SIDE_SIGN']),
                 Query('C12.ops.name', 'ops.c', OPS_UNITS, models=m, defines=['SIDE_NAME'], unwind=12, bounds=b),
                 Query('C12.ops.id', 'ops.c', OPS_UNITS, models=m, defines=['SIDE_ID'], unwind=12, bounds=b),
                 Query('C12.ops.init', 'ops.c', OPS_UNITS, models=m, defines=['SIDE_INIT'], unwind=12, bounds=b)]
@@ -430,6 +449,10 @@ class C05(Spec):
         qs = [gnutls_q('C05.gnutls.sign_ec.%s' % a[8:], ['SIDE_SIGN_EC', 'ONLY_ALG=%s' % a], budget=900)
               for a in ('JWT_ALG_ES256', 'JWT_ALG_ES384', 'JWT_ALG_ES512')]
         qs.append(gnutls_q('C05.gnutls.sign', ['SIDE_SIGN']))
+        qs += [ossl_q('C05.ossl.sign_ec.%s' % a[8:], ['SIDE_SIGN_EC', 'ONLY_ALG=%s' % a], budget=900)
+               for a in (('JWT_ALG_ES256', 'JWT_ALG_ES512') if tier == 'quick' else ('JWT_ALG_ES256', 'JWT_ALG_ES256K', 'JWT_ALG_ES384', 'JWT_ALG_ES512'))]
+        qs.append(ossl_q('C05.ossl.sign', ['SIDE_SIGN']))
+        qs.append(ossl_q('C05.ossl.verify.pss', ['SIDE_VERIFY', 'NOT_ES']))
         return qs
 
 
